@@ -145,7 +145,8 @@ func genTTHParams(r *rand.Rand) tthParams {
 			k := []string{"isn", "rip", "tc", "ti", "pcs", "pce", "pss", "prs", "pre", "crrst", "K_ProcessAtTime", "K_", "pr", "prS", "pree", "is", "isn "}
 			return k[r.Intn(len(k))]
 		case 12: // keys that resemble the ACL-token key
-			return []string{"rpc_transit_gdpr-token", "RPC_TRANSIT_GDPR-TOKEN", "RPC_TRANSIT_gdpr-toke", "RPC_TRANSIT_gdpr-token2", "Rpc_Transit_Gdpr-Token", "gdpr-token"}[r.Intn(6)]
+			return []string{"rpc_transit_gdpr-token", "RPC_TRANSIT_GDPR-TOKEN", "RPC_TRANSIT_gdpr-toke", "RPC_TRANSIT_gdpr-token2", "Rpc_Transit_Gdpr-Token", "gdpr-token",
+				"RPC_PERSIST_gdpr-token", "RPC_BACKWARD_gdpr-token", "RPC_TRANSIT_", "RPC_PERSIST_", "RPC_TRANSIT_gdpr-token\x00", " RPC_TRANSIT_gdpr-token"}[r.Intn(12)]
 		case 13:
 			return string(gen.Bytes(r, 255+r.Intn(3)))
 		case 0:
@@ -291,6 +292,36 @@ func c06Check(cs *drv.Case, p tthParams, payloadLen int, sched int) {
 	if len(p.Int) <= 1 && len(p.Str) <= 1 && !bytes.Equal(sframe, frame) {
 		fail("stream-frame-differs", "frames differ although no map has more than one entry (first diff at %d)", firstDiff(sframe, frame))
 		return
+	}
+	// the same through a foreign bufiox.Writer that keeps WriteBinary payloads by reference and reads nothing before Flush
+	if payloadLen <= 1<<16 {
+		zw := &doubles.ZCWriter{}
+		ztot, zerr := ttheader.Encode(ctx, ep, zw)
+		if zerr != nil || len(ztot) != 4 {
+			fail("encode-paths-disagree", "Encode into a zero-copy writer: err=%v, total-length field of %d bytes", zerr, len(ztot))
+			return
+		}
+		if zw.WrittenLen() != len(buf) {
+			fail("headerlen-vs-written", "encoder wrote %d bytes into a zero-copy writer, bytes encoder %d", zw.WrittenLen(), len(buf))
+			return
+		}
+		binary.BigEndian.PutUint32(ztot, uint32(len(frame)-4))
+		zw.WriteBinary(payload)
+		zw.Flush()
+		zf := zw.Out
+		if len(zf) != len(frame) {
+			fail("stream-frame-differs", "a zero-copy writer received %d bytes, EncodeToBytes+payload %d", len(zf), len(frame))
+			return
+		}
+		if d3, _, _ := ref.TTHCheckLayout(zf[:len(buf)], p.Flags, p.Seq, p.Proto, p.Int, p.Str); len(d3) > 0 {
+			cs.Fail("frame-layout", M{"defect": firstWord(d3[0]), "via": "zero-copy writer"}, M{"params": p.full(), "defects": d3, "frame_hex": hexOf(zf[:len(buf)])})
+			return
+		}
+		if !bytes.Equal(zf[len(buf):], payload) || binary.BigEndian.Uint32(zf) != uint32(len(frame)-4) {
+			fail("stream-frame-differs", "payload or total-length field of the frame a zero-copy writer received is wrong")
+			return
+		}
+		cs.C.Obs("frames encoded into a zero-copy writer", 1)
 	}
 	if !ttheader.IsTTHeader(frame) {
 		fail("is-ttheader", "IsTTHeader false on a produced frame")
